@@ -159,6 +159,8 @@ def m_text(m):
         return "(" + " ".join(m_text(x) for x in m[1]) + ")"
     if t == "end":
         return "end"
+    if t == "mparam":
+        return m[1]
     raise ValueError(m)
 
 
@@ -341,7 +343,7 @@ def s_text(st, ind="  "):
 
 
 def arg_text(a):
-    if a[0] in ("lit", "liti", "bin", "re", "bre", "cat", "end"):
+    if a[0] in ("lit", "liti", "re", "bre", "cat", "end", "mparam") or (a[0] == "bin" and isinstance(a[1], (bytes, bytearray))):
         return m_text(a)
     if a[0] in ("num", "char", "bool"):
         return e_text(a)
